@@ -977,6 +977,86 @@ def show_track(t):
 _DECOY_MSG = None
 
 
+def run_tracker_reentrant(ordered, ttl, mode, ops):
+    """A tracker whose second subscriber acts on the tracker from inside its callback (implementation only; the
+    oracle is the life cycle seen by the first subscriber and the set of tracks after every operation):
+      pop    - on DELETED of a vessel, removes a companion vessel by hand
+      reseed - on DELETED of a vessel, reports that vessel again (a pinned vessel)
+      new    - on DELETED of a vessel, reports a vessel never seen before, stamped a little in the past
+      raise  - on UPDATED of the companion vessel, raises KeyError (an application bug in a handler)
+    Output per operation: events seen by the first subscriber, then the MMSIs with a track, then the MMSIs whose
+    age has reached the TTL (checked by the caller only where the implementation promises expiry)."""
+    tr = TR.AISTracker(ttl_in_seconds=ttl, stream_is_ordered=ordered)
+    evs = []
+    tr.register_callback(TR.AISTrackEvent.CREATED, lambda t: evs.append('C%d' % t.mmsi))
+    tr.register_callback(TR.AISTrackEvent.UPDATED, lambda t: evs.append('U%d' % t.mmsi))
+    tr.register_callback(TR.AISTrackEvent.DELETED, lambda t: evs.append('D%d' % t.mmsi))
+    CLOCK.t = 0.0
+    TIME_SCALE[0] = 1
+    seen_lines = {}
+    fresh_ids = [900001]
+    depth = [0]
+    companion = [None]
+
+    def on_deleted(t):
+        if depth[0] > 3:
+            return
+        depth[0] += 1
+        try:
+            if mode == 'pop' and companion[0] is not None and companion[0] != t.mmsi:
+                tr.pop_track(companion[0])
+            elif mode == 'reseed' and t.mmsi in seen_lines:
+                tr.update(DEC._assemble_messages(seen_lines[t.mmsi]), CLOCK.t)
+            elif mode == 'new' and seen_lines:
+                line = next(iter(seen_lines.values()))
+                # the same report under a new MMSI is not possible without re-encoding: take a vessel of the pool that
+                # has no track at the moment
+                for m_, l_ in seen_lines.items():
+                    if tr.get_track(m_) is None and m_ != t.mmsi:
+                        tr.update(DEC._assemble_messages(l_), CLOCK.t - (max((tr.ttl_in_seconds or 2) - 1, 0)))
+                        break
+        except ValueError:
+            pass
+        finally:
+            depth[0] -= 1
+
+    def on_updated(t):
+        if mode == 'raise' and companion[0] == t.mmsi:
+            raise KeyError(t.mmsi)
+
+    tr.register_callback(TR.AISTrackEvent.DELETED, on_deleted)
+    tr.register_callback(TR.AISTrackEvent.UPDATED, on_updated)
+    out = []
+    for op in ops:
+        p = op.split(':')
+        note = ''
+        try:
+            if p[0] == 't':
+                CLOCK.t = float(p[1])
+                continue
+            if p[0] == 'c':
+                tr.cleanup()
+            elif p[0] == 'p':
+                tr.pop_track(int(p[1]))
+            elif p[0] == 'u':
+                sobj = DEC._assemble_messages(unhx(p[1]))
+                mm = sobj.decode().mmsi
+                seen_lines.setdefault(mm, unhx(p[1]))
+                if companion[0] is None:
+                    companion[0] = mm
+                tr.update(sobj, None if p[2] == 'N' else float(p[2]))
+        except ValueError:
+            note = 'rejected'
+        except KeyError:
+            note = 'handler-raised'
+        stale = [] if tr.ttl_in_seconds is None else \
+            sorted(t.mmsi for t in tr.tracks if not (CLOCK.t - t.last_updated < tr.ttl_in_seconds))
+        out.append('%s[%s]%s {%s} stale=%s' % (p[0], ','.join(evs), note, ' '.join(str(t.mmsi) for t in tr.tracks),
+                                              ','.join(map(str, stale)) or '-'))
+        del evs[:]
+    return ' ; '.join(out)
+
+
 def run_tracker(ordered, ttl, ops):
     # an independent tracker with its own observers, busy while the observed one runs: its tracks and
     # events are its own
@@ -1503,6 +1583,8 @@ def step2(line):
         r = _twice(lambda: ENC.ais_to_nmea_0183(unhx(p[1]).decode('latin-1'), unhx(p[2]).decode('latin-1'),
                                                 unhx(p[3]).decode('latin-1'), int(p[4])))
         return ','.join(hx(s.encode('latin-1')) for s in r) if r else '-'
+    if cmd == 'tracker_re':
+        return run_tracker_reentrant(p[1] == '1', None if p[2] == 'N' else int(p[2]), p[3], p[4:])
     if cmd == 'tracker':
         return run_tracker(p[1] == '1', None if p[2] == 'N' else int(p[2]), p[3:])
     if cmd == 'chain':
